@@ -137,37 +137,41 @@ Fixpoint join_cookies (base : string) (cs : list (string * string)) : string :=
 Definition passed_on (hin : header) (k : string) : list string :=
   if never_passed k || is_forwarding_name k || hop_by_hop hin k then [] else h_values k hin.
 
-(** the values of field [k] the upstream must see ([k] canonical, not Host).
-    In this order: forwarding information extended by the peer; the pipeline's
-    value; otherwise the client's own field unless it is one that is never passed.
-    Cookies of the pipeline are appended to the Cookie field.  Two documented
-    habits of Go's http.Transport are part of the expectation: only the first
-    User-Agent value is written, and `Accept-Encoding: gzip` is added to a non-HEAD
-    request that has neither Accept-Encoding nor Range. *)
-Definition expected_values (pipeline_first : bool) (q : request) (pl : pipeline) (method : string) (k : string) : list string :=
+(** the values of field [k] heimdall must hand to its HTTP client ([k]
+    canonical, not Host).  In this order: forwarding information extended by the
+    peer; the pipeline's value; otherwise the client's own field unless it is
+    one that is never passed.  Cookies of the pipeline are appended to the Cookie
+    field.  [pipeline_first] says who wins when the pipeline itself produced a
+    forwarding header: the property text says the pipeline (true). *)
+Definition handed_over (pipeline_first : bool) (q : request) (pl : pipeline) (k : string) : list string :=
   let hin := in_headers q in
   let base :=
     match pipeline_value (p_headers pl) k with
     | Some v => [v]
     | None => passed_on hin k
     end in
-  let fwd := forwarding_value q k in
   let base :=
-    match fwd with
+    match forwarding_value q k with
     | Some v => if pipeline_first then match pipeline_value (p_headers pl) k with Some pv => [pv] | None => [v] end else [v]
     | None => base
     end in
-  if String.eqb k "Cookie" && negb (is_nil (p_cookies pl)) then
-    [join_cookies (match base with v :: _ => v | [] => "" end) (sort_cookies (p_cookies pl))]
-  else if String.eqb k "User-Agent" then
-    match base with v :: _ => if is_empty v then [] else [v] | [] => [] end
-  else if String.eqb k "Accept-Encoding" then
-    let present k' := match pipeline_value (p_headers pl) k' with
-                      | Some v => negb (is_empty v)
-                      | None => negb (is_empty (match passed_on hin k' with v :: _ => v | [] => "" end))
-                      end in
-    if present "Accept-Encoding" || present "Range" || String.eqb method "HEAD" then base else ["gzip"]
+  if String.eqb k "Cookie" && negb (is_nil (p_cookies pl))
+  then [join_cookies (first_or_empty base) (sort_cookies (p_cookies pl))]
   else base.
+
+(** ... and what the upstream then sees.  Two documented habits of Go's
+    http.Transport are part of the expectation: only the first User-Agent value is
+    written (none if it is empty), and `Accept-Encoding: gzip` is added to a non-HEAD
+    request that has neither Accept-Encoding nor Range. *)
+Definition expected_values (pipeline_first : bool) (q : request) (pl : pipeline) (method : string) (k : string) : list string :=
+  let ho := handed_over pipeline_first q pl in
+  if String.eqb k "User-Agent" then
+    (if is_empty (first_or_empty (ho k)) then [] else [first_or_empty (ho k)])
+  else if String.eqb k "Accept-Encoding" then
+    (if is_empty (first_or_empty (ho "Accept-Encoding")) && is_empty (first_or_empty (ho "Range")) &&
+        negb (String.eqb method "HEAD")
+     then ["gzip"] else ho k)
+  else ho k.
 
 (** every name that could show up *)
 Definition relevant_names (q : request) (pl : pipeline) (obs : header) : list string :=
